@@ -15,7 +15,7 @@ class C04(HistProp):
     rule = ('histories over the public API generated with a shadow ownership graph: new/build of every type, push / push-with-move / set / replace / get, '
             'map add, add chunk, tag set (incl. re-tagging) / get / build, copy, incref, decref, shared sub-items in several containers; every history ends '
             'with the client dropping all references (live blocks must be 0); exhaustive for all histories of length <= 3 (4 thorough) over a 3-slot pool, '
-            'random of length 60-200 beyond; non-trivial = any API call; distinct by (operation, result line)')
+            'random of length 60-200 beyond; copy / load / build-tag scenarios re-run refusing allocator request k alone and k and all later, for every k; non-trivial = any API call; distinct by (operation, result line)')
 
     def histories(self, tier, rng):
         hs = hist.exhaustive(4 if tier == 'thorough' else 3)
@@ -25,6 +25,11 @@ class C04(HistProp):
         # rule-following histories in which the allocator refuses a growth request: the failed insertion must not disturb any count
         from .C12 import refused_growth_histories
         hs += refused_growth_histories()
+        # cbor_copy / cbor_load / tag building under every single-fault and fail-stop schedule, then the client drops everything: whatever a
+        # clean-up path did with the counts, nothing may remain allocated (the scenarios of C06, judged here by the end state only)
+        from .C06 import C06
+        for l, e in C06().histories(tier, core.Rng('C04-faulted')):
+            if any(x.startswith(('H copy', 'H load', 'H btag')) for x in l): hs.append((l, e))
         return hs
 
     def judge(self, lines, outs, expect):
